@@ -67,8 +67,8 @@ theorem loops_leave_nothing (ρ : List FunDef) (fuel : Nat) (c b i st : Node) (x
     · exact Frame.of_eq rfl
     · rename_i s2 h2
       have e2 := (Frame.of_eq (s := t) (t := (t.allocV (.int lo)).2) rfl).trans (Frame.addObject h2)
-      have hh := run_frame ρ fuel (.cforL t.objs.length hi b) s2
-      generalize run ρ fuel (.cforL t.objs.length hi b) s2 = rr at hh ⊢
+      have hh := run_frame ρ fuel (.cforL (t.allocV (.int lo)).1 hi b) s2
+      generalize run ρ fuel (.cforL (t.allocV (.int lo)).1 hi b) s2 = rr at hh ⊢
       obtain ⟨oo, tt⟩ := rr
       cases oo <;> first | exact e2.trans hh | exact (e2.trans hh).trans (Frame.of_eq rfl)
 
